@@ -244,11 +244,18 @@ func evalC12(sc *Scenario, sim *Sim) ([]Violation, bool, string) {
 	orig := sc.World.Files[p.RulesPath].Bytes()
 	for ti, tg := range p.Targets {
 		sb.Restore(sc.World)
-		// leave only this target's assembly file so that --all speaks about one rule
-		for path := range sc.World.Files {
-			if strings.HasPrefix(path, "crs/regex-assembly/") && strings.HasSuffix(path, ".ra") && !strings.Contains(path, "/include/") && path != "crs/regex-assembly/"+tg.Arg+".ra" {
-				_ = removeFile(sb, path)
+		// the --all variants need every other rule to be up to date: bring all rules up to date first; where that is
+		// impossible (another program does not compile) leave only this target's assembly file in place
+		if ua := sb.Run(Step{Argv: []string{"regex", "update", "--all"}, Cwd: "crs", Plan: p.Plans[0]}); ua.Exit != 0 {
+			sb.Restore(sc.World)
+			for path := range sc.World.Files {
+				if strings.HasPrefix(path, "crs/regex-assembly/") && strings.HasSuffix(path, ".ra") && !strings.Contains(path, "/include/") && path != "crs/regex-assembly/"+tg.Arg+".ra" {
+					_ = removeFile(sb, path)
+				}
 			}
+			sim.Stats.probe("single-file-mode")
+		} else {
+			sim.Stats.probe("all-rules-current-mode")
 		}
 		add := func(oracle, what, msg, detail string) {
 			viol = append(viol, Violation{Prop: "C12", Oracle: oracle, Sig: "C12/" + oracle + "/" + what, Msg: msg,
@@ -264,6 +271,8 @@ func evalC12(sc *Scenario, sim *Sim) ([]Violation, bool, string) {
 		}
 		nontrivial = true
 		after1 := sb.MustRead(p.RulesPath)
+		// operands before the target may have changed length: the target's operand starts at the same column of the same line
+		tg.Start = relocate(orig, after1, tg.Start)
 		// stored operand = generate's output (span located by the structure, not by the implementation's pattern)
 		if len(after1) >= tg.Start+len(g.Stdout) && !bytes.Equal(after1[tg.Start:tg.Start+len(g.Stdout)], g.Stdout) {
 			add("stored-equals-generated", "stored", "the operand stored by update is not generate's output", fmt.Sprintf("generated: %q\nrules file after: %q", clip(g.Stdout), clip2(after1, 2000)))
@@ -317,6 +326,21 @@ func evalC12(sc *Scenario, sim *Sim) ([]Violation, bool, string) {
 		}
 	}
 	return viol, nontrivial, fmt.Sprintf("%x|%d", sc.World.Hash(), p.FlipAt)
+}
+
+// relocate maps an offset of the original file to the same line and column of the current file (update never adds or removes lines).
+func relocate(orig, cur []byte, off int) int {
+	line := bytes.Count(orig[:off], []byte("\n"))
+	col := off - (bytes.LastIndexByte(orig[:off], '\n') + 1)
+	pos := 0
+	for i := 0; i < line; i++ {
+		j := bytes.IndexByte(cur[pos:], '\n')
+		if j < 0 {
+			return off
+		}
+		pos += j + 1
+	}
+	return pos + col
 }
 
 func removeFile(sb *Sandbox, rel string) error {
